@@ -210,7 +210,17 @@ func schemaNames(r *lib.Rng, i int, nf int) (names []string, family string) {
 		family = "names_plain"
 		names = distinctNames(r, nf)
 	}
-	return names, family
+	// column names of a result are pairwise distinct: drop a name that repeats an earlier one
+	// (e.g. qualifier "x" + "." + short name "" equals qualifier "x" + ".")
+	seen := map[string]bool{}
+	var uniq []string
+	for _, n := range names {
+		if !seen[n] {
+			seen[n] = true
+			uniq = append(uniq, n)
+		}
+	}
+	return uniq, family
 }
 
 // genType draws a type; unions hold at most one alternative per type id (what TypeSum produces for scalars).
